@@ -12,7 +12,18 @@ import (
 	"time"
 )
 
+type BoundedSpec struct {
+	Name          string `json:"name"`
+	Pkg           string `json:"pkg"`  // package directory relative to the repository
+	File          string `json:"file"` // harness test file relative to /verif
+	Run           string `json:"run"`
+	BoundQuick    int    `json:"bound_quick"`
+	BoundThorough int    `json:"bound_thorough"`
+	What          string `json:"what"`
+}
+
 type PropConfig struct {
+	Bounded     []BoundedSpec `json:"bounded"`
 	Packages    []string `json:"packages"`
 	TrustedBase []string `json:"trusted_base"`
 	Assumptions []string `json:"assumptions"`
@@ -251,6 +262,7 @@ func cmdCheck(args []string) int {
 		rep.checkLock()
 	}
 	rep.replayAll(dir)
+	rep.runBounded(dir)
 	code := rep.finish(time.Since(t0).Seconds(), *only == "")
 	return code
 }
